@@ -134,6 +134,7 @@ func GenCfg(r *rng.R, o GenOpts) *Cfg {
 		}
 	}
 	cfg.Provider = []string{"pool", "pool", "bounded0", "bounded1", "bounded2"}[r.Intn(5)]
+	cfg.CustomErr = r.Chance(4, 5)
 	return cfg
 }
 
